@@ -251,6 +251,10 @@ def judge_case(ctx, res):
                                   f"but crate {hid[h]} is {'live' if want else 'not live'}", wit)
         if problems or stop_at == k:
             break  # later steps would be judged against a wrong model
+        # canonical shape of the observed forest (ids abstracted away)
+        def shape(c):
+            return (exp.name[c], tuple(sorted(shape(x) for x in exp.name if exp.parent[x] == c)))
+        ctx.state("distinct_forest_states_observed", repr(sorted(shape(r) for r in exp.name if exp.parent[r] is None)))
         model = f.copy()
         model.name = dict(exp.name)
         model.parent = dict(exp.parent)
